@@ -480,7 +480,27 @@ func (c *c05) editRoot(tree *generic.PathNode, model *TVal, vg *vgen) {
 		fs := model.T.St.Fields
 		f := fs[t.Intn(len(fs), "edit.field")]
 		cur, idx, _ := childAt(model, pstep{Kind: 0, ID: f.ID})
-		switch t.Intn(3, "edit.kind") {
+		switch t.Intn(4, "edit.kind") {
+		case 3: // undo: a grandchild is cleared, then the child's original node is stored back - the child is as before
+			if cur == nil || c.opts.NotScanParentNode {
+				return
+			}
+			got := tree.Field(thrift.FieldID(f.ID), c.opts)
+			if got == nil || got.IsError() || len(got.Next) == 0 || len(got.Node.Raw()) == 0 {
+				return
+			}
+			orig := got.Node
+			k := t.Intn(len(got.Next), "edit.undo.grandchild")
+			w.NextOp(fmt.Sprintf("clear grandchild %d of Field(%d), then SetField(%d, <its original node>)", k, f.ID, f.ID))
+			got.Next[k].Node = generic.Node{}
+			got.Next[k].Next = got.Next[k].Next[:0]
+			w.opFacts = c.facts
+			exist, err := tree.SetField(thrift.FieldID(f.ID), orig, c.opts)
+			w.opFacts = nil
+			if err != nil || !exist {
+				w.Failf("setfield-failed", c.facts, "SetField(%d) with the child's own original node: exist=%v err=%v", f.ID, exist, err)
+			}
+			w.Count("edit_undo_by_original_node")
 		case 0: // lookup
 			w.NextOp(fmt.Sprintf("Field(%d)", f.ID))
 			w.opFacts = c.facts
@@ -503,6 +523,34 @@ func (c *c05) editRoot(tree *generic.PathNode, model *TVal, vg *vgen) {
 			w.Count("edit_setfield")
 			got := tree.Field(thrift.FieldID(f.ID), c.opts)
 			c.checkLookup(fmt.Sprintf("Field(%d) after SetField", f.ID), got, nv)
+			// lookups inside the replaced child (it is not loaded yet): nothing of the old value may answer
+			if got != nil && cur != nil && f.T.Kind == tMAP && !got.IsError() {
+				for i, k := range cur.Keys {
+					if i >= 6 {
+						break
+					}
+					var step pstep
+					var sub *generic.PathNode
+					if k.T.Kind == tSTRING {
+						step = pstep{Kind: 2, SKey: string(k.S)}
+						sub = got.GetByStr(step.SKey, c.opts)
+					} else {
+						step = pstep{Kind: 3, IKey: k.I}
+						sub = got.GetByInt(int(k.I), c.opts)
+					}
+					want, _, _ := childAt(nv, step)
+					if sub == nil || sub.IsError() || sub.Node.IsEmpty() {
+						continue // not loaded: no answer is fine
+					}
+					if want == nil {
+						w.Failf("lookup-stale-child", c.facts, "Field(%d) was replaced; a lookup of %s inside it answers with an entry of the old map (%x)", f.ID, step, clipb(sub.Node.Raw(), 60))
+					}
+					if !bytes.Equal(sub.Node.Raw(), encodeThrift(nil, want)) {
+						w.Failf("lookup-stale-child", c.facts, "Field(%d) was replaced; a lookup of %s inside it returns %x, the new map holds %x", f.ID, step, clipb(sub.Node.Raw(), 60), clipb(encodeThrift(nil, want), 60))
+					}
+				}
+				w.Count("lookup_inside_replaced_map")
+			}
 		default: // clear
 			if cur == nil {
 				return
